@@ -108,23 +108,13 @@ theorem signature_verify_success_requires {c e u p cr eff d} (h : opSignatureVer
   exact ⟨o, this.1, this.2.2.1, this.2.2.2.1, this.2.2.2.2, this.2.1⟩
 
 theorem mac_success_requires {c e u a dt cr eff d} (h : opMac c e u a dt cr = .ok (eff, d)) :
-    ∃ o ∈ e.store.objs, o.state = some St.active ∧ (∃ m, o.mask = some m ∧ hasBit m Mask.macGenerate = true) ∧
+    ∃ o ∈ e.store.objs, o.state = some St.active ∧ hasBit (o.mask.getD 0) Mask.macGenerate = true ∧
       Allowed c e o Op.get := by
   unfold opMac at h
   inv h
-  obtain ⟨o, ho, _, _, _, h⟩ := h
+  obtain ⟨o, ho, _, _, _, hst, hb, _⟩ := h
   have hg := getWithAccess_ok ho
-  split at h
-  · inv h
-  · rename_i s hs
-    inv h
-    obtain ⟨hst, h⟩ := h
-    split at h
-    · inv h
-    · rename_i m hm
-      inv h
-      refine ⟨o, hg.2.1, ?_, ⟨m, hm, by simpa using h.1⟩, hg.2.2⟩
-      rw [hs]; simpa using hst
+  exact ⟨o, hg.2.1, by simpa using hst, by simpa using hb, hg.2.2⟩
 
 /-- Use as a wrapping key: Get with a key wrapping specification succeeds only if the
 wrapping key is an Active symmetric key with the Wrap Key bit (and readable by the requester). -/
